@@ -206,7 +206,7 @@ def build_real_layer(tf, qkeras, c):
   try:   # first call creates the variables (the inner BatchNormalization is built by the call)
     layer(tf2.zeros((1, c["h"], c["w"], c["cin"])), training=False)
   except Exception:  # pylint: disable=broad-except
-    pass            # center=False raises inside call, after the variables exist
+    pass            # (before fix PENDING-center center=False raised here, after the variables exist)
   set_folded_params(c, layer)
   return layer
 
@@ -287,10 +287,14 @@ def stream_layers(run, tf, qkeras, rng, tier):
             variants.append((None, q2, "linear"))
           for (qk, qb, act) in variants:
             cases.append(layer_case(rng, geo, mode, use_bias, scale, True, qk, qb, act, "exact"))
-  # center=False: the folded layers cannot be called at all (finding)
-  for geo in geos[:2] + geos[len(geos) // 2:len(geos) // 2 + 2]:
+  # center=False (used to raise; regression of fix PENDING-center): un-quantized and quantized
+  for gi, geo in enumerate(geos[:3] + geos[len(geos) // 2:len(geos) // 2 + 3]):
     for mode in ("ema_stats_folding", "batch_stats_folding"):
-      cases.append(layer_case(rng, geo, mode, True, True, False, None, None, "linear", "exact"))
+      cases.append(layer_case(rng, geo, mode, bool(gi % 2), bool((gi + 1) % 3), False, None, None, "linear", "exact"))
+      cases.append(layer_case(rng, geo, mode, True, True, False, QUANTS[gi % len(QUANTS)],
+                              QUANTS[(gi + 1) % len(QUANTS)], "linear", "exact"))
+  for geo in (geos[1], geos[len(geos) // 2 + 1]):
+    cases.append(layer_case(rng, geo, "ema_stats_folding", True, True, False, None, None, "linear", "float"))
   # float regime
   nf = 6 if tier == "quick" else 24
   for gi, geo in enumerate(geos):
@@ -326,21 +330,9 @@ def stream_layers(run, tf, qkeras, rng, tier):
     except Exception as e:  # pylint: disable=broad-except
       err = "%s: %s" % (type(e).__name__, str(e)[:200])
     y_model = dec(o["y"])
-    # ---- center=False
+    # ---- center=False (repaired by PENDING-center: beta None -> 0): same checks as every other case
     if not c["center"]:
-      run.compared += 1
-      if (err is None) != (y_model is not None):
-        run.disagree("layer", case_desc(c), {"err": err}, {"y": o["y"]})
-      # the reference conv->BN(center=False) is fine; the folded layer raises
-      conv, bn = build_reference(tf, c)
-      y_ref = bn(conv(x), training=False).numpy()
-      if err is not None:
-        run.count("clause:callable:raises")
-        run.violate("callable", {"class": key["class"], "center": False,
-                                 "why": "beta-none" if "NoneType" in err else "other"},
-                    {"case": case_desc(c), "error": err, "reference_output_head": [float(v) for v in y_ref.ravel()[:4]]},
-                    mirrored=(y_model is None))
-      continue
+      run.count("layer:center=False")
     if err is not None:
       run.violate("callable", dict(key, why="raises"), {"case": case_desc(c), "error": err}, mirrored=False)
       continue
@@ -486,7 +478,7 @@ def templates_unfold(rng):
     mode = ("ema_stats_folding", "batch_stats_folding")[int(rng.integers(2))]
     q = [None, None] if rng.random() < 0.4 else [SMALLQ[int(rng.integers(len(SMALLQ)))], SMALLQ[int(rng.integers(len(SMALLQ)))]]
     d = {"name": name, "type": "f" + cls, "inputs": [inp], "mode": mode,
-         "eps": EPS_EXACT, "scale": bool(rng.random() < 0.8), "center": True}
+         "eps": EPS_EXACT, "scale": bool(rng.random() < 0.8), "center": bool(rng.random() < 0.7)}
     d.update(conv_params(rng, cls, kw.pop("kh", 2), kw.pop("kw", 2), kw.pop("cm", 2),
                          use_bias=bool(rng.random() < 0.6), qk=q[0], qb=q[1], **kw))
     return d
@@ -677,9 +669,17 @@ def stream_unfold(run, tf, qkeras, rng, tier):
   for r in range(reps):
     for (tname, ish, spec) in templates_unfold(rng):
       tf.keras.backend.clear_session()
-      m = build_keras(tf, qkeras, ish, spec, rng)
       x = dy(rng, (2,) + ish, 2, -1)
-      y = m.predict(x, verbose=0)
+      try:
+        m = build_keras(tf, qkeras, ish, spec, rng)
+        y = m.predict(x, verbose=0)
+      except Exception as e:  # pylint: disable=broad-except
+        run.case(("unfold-build-raises", len(jobs), tname))
+        run.count("clause:callable:FAILS")
+        run.violate("callable", {"stream": "unfold", "template": tname, "why": "raises"},
+                    {"model": spec_desc(tname, spec), "error": "%s: %s" % (type(e).__name__, str(e)[:300])},
+                    mirrored=False)
+        continue
       try:
         um = bn_folding_utils.unfold_model(m)
         yu = um.predict(x, verbose=0)
@@ -915,7 +915,7 @@ def run(run: core.Run, tier: str):
   import qkeras
   rng = np.random.default_rng(run.seed)
   run.extra["rule"] = (
-      "layer stream: {QConv2DBatchnorm, QDepthwiseConv2DBatchnorm} x {ema,batch}_stats_folding x use_bias x "
+      "layer stream (code with fix PENDING-center): {QConv2DBatchnorm, QDepthwiseConv2DBatchnorm} x {ema,batch}_stats_folding x use_bias x "
       "scale x center x geometry {valid,same} x {plain, strided, dilated, rectangular, 1x1, depth multiplier} x "
       "{no quantizer, kernel+bias quantized_bits, kernel only, bias only} x {linear, relu}; exact regime "
       "(eps=2^-10, var=4^j-eps, short dyadic gamma incl. 0 and negative) compared bit for bit with the Lean "
